@@ -107,7 +107,7 @@ def main():
         # the same vectors lying differently in the embedder's memory (separate allocations, pointers permuted within one block
         # of strings, entries sharing their tails): what the guest is told depends on the vector, not on where its strings are
         vec_out_lay = {}
-        for ln_, name_ in enumerate(("malloc", "rotate", "tails", "midrev")):
+        for ln_, name_ in enumerate(("malloc", "rotate", "tails", "prefix", "midrev")):
             layout[0] = name_
             sel = range(ln_ % 3, nv, 3) if name_ != "midrev" else [j_ for j_ in range(nv) if len(cfgs[j_][0]) > 3 or len(cfgs[j_][1]) > 3]
             vec_out_lay[name_] = dict(zip(sel, pmap(run_vec, sel)))
@@ -224,6 +224,17 @@ def main():
             recs.append({"kind": "random", "len": ln, "errno": max(pair[0]["errno"], pair[1]["errno"]), "outside": pair[0]["outside_changed"] + pair[1]["outside_changed"],
                          "run1": pair[0]["longest_unchanged_run"], "run2": pair[1]["longest_unchanged_run"]})
             owner.append(("random", ln, pair))
+        # ... and while signals keep arriving (a host call that is interrupted or serves a large request in pieces)
+        sf = os.path.join(wd, "sigrnd.txt")
+        slens = [8192, 100000, 1000000, 70000]
+        open(sf, "w").write("".join("sigrandom %s %d\n" % (rng.choice("pu"), n) for n in slens))
+        rc, so, se = run([exe, os.path.join(wd, "csb"), sf, "--"], timeout=300, env={"ASAN_OPTIONS": "detect_leaks=0"})
+        srl = [json.loads(l) for l in so.splitlines() if '"sigrandom"' in l]
+        if len(srl) != len(slens):
+            v.deviation("random:under-signals:no-observation", {"stderr": se[-400:], "rc": rc})
+        for r_ in srl:
+            if r_["errno"] != 0 or r_["longest_unchanged_run"] > 16:
+                v.deviation("random:under-signals", r_)
         # --- exit statuses in child processes
         codes = [0, 1, 2, 127, 128, 255] if tier == "quick" else list(range(256))
 
